@@ -8,6 +8,11 @@ HOOK_COMMITS = ["204cfe3", "2edc694", "e1d8638"]
 
 # id -> (category, technique, level text, level note, design ref)
 CHECKS = {
+ "C07": ("exploration",
+         "differential runtime oracle: real searches (both collectors; current-root, superseded and OpenReader readers; step-counting reader) against an independent evaluator of the documented query meanings over a reference model",
+         "Every generated query tree over every generated multi-segment corpus with pending deletions is answered by the real searchers and compared as a multiset of ids with a from-the-documentation evaluator; query lists are served in sequence by one reader so that iterator recycling and backward Advance are in play, every 10th query is repeated and must answer identically; a small scope (3 terms x 5 docs x 2 segments x fixed boolean shapes) is enumerated (sampled in quick, complete in thorough). Held on the corpora and queries explored.",
+         "Trusts: the reference evaluator (calibrated against the code on ~10^5 queries, see DESIGN.md §5), Go regexp for wildcard/regexp meaning, the harness analyzer. Not decided: fuzzy pairs where restricted/unrestricted edit distance differ, geo points within 1e-3 (and within the polar/equatorial radius spread) of a boundary, ranges that run into C10's known enumeration blow-up.",
+         "DESIGN.md §4 C07"),
  "C10": ("exploration",
          "runtime oracle on the numeric package and the real range decomposition (hook) over an exhaustive boundary set, plus end-to-end range queries through a look-up counting reader (logical-step termination oracle)",
          "Round trip and order embedding are checked for all pairs of a boundary set at all 64 shifts; the real splitInt64Range output is checked for exactness on every interval x value of the set; numeric and date range queries are run end to end on a multi-segment index for all end-point pairs and open/closed combinations, counting dictionary look-ups so that a search that does not terminate is recognised by steps, not by a clock. Exhaustive over the boundary set, sampled beyond it.",
